@@ -557,7 +557,7 @@ fn pair_shapes(f: &str, g: &str, r: &mut Rng, all: bool) -> Vec<String> {
     let g = g.trim_end_matches('(');
     let leaf = |r: &mut Rng| ["@", "@", "@", "1", "2", "@+1", "3", "@-1", "9007199254740993", "9223372036854775807", "0.5"][r.below(11)].to_string();
     let mut out = Vec::new();
-    let shapes: Vec<usize> = if all { (0..if f == g { 17 } else { 9 }).collect() } else { vec![r.below(9), r.below(9)] };
+    let shapes: Vec<usize> = if all { (0..if f == g { 23 } else { 9 }).collect() } else { vec![r.below(9), r.below(9)] };
     for s in shapes {
         let (a, b, c) = (leaf(r), leaf(r), leaf(r));
         out.push(match s {
@@ -575,6 +575,13 @@ fn pair_shapes(f: &str, g: &str, r: &mut Rng, all: bool) -> Vec<String> {
                 let args: Vec<String> = (0..n).map(|i| match i % 3 { 0 => "@".to_string(), 1 => format!(".{}", 1 + i % 9), _ => format!("{}", i % 7) }).collect();
                 format!("{}({})", f, args.join(","))
             }
+            // near-equal arguments: where comparisons, sums and roundings are decided by the last bit
+            17 => format!("{}(@,@+1)", f),
+            18 => format!("{}(@+1,@)", f),
+            19 => format!("{}(@,@,@)", f),
+            20 => format!("{}(@-1,@,@+1)", f),
+            21 => format!("{}(9223372036854775807,@)", f),
+            22 => format!("{}(@,9007199254740993)", f),
             9 => format!("{}({})", f, a),
             10 => format!("{}({},{})", f, a, b),
             11 => format!("{}({},{},{})", f, a, b, c),
@@ -821,6 +828,18 @@ pub fn build_pool(seed: u64, repo: &str, sz: &PoolSizes, focus: Option<&PoolFocu
         }
     }
     if let Some(fc) = focus {
+        if fc.tokens.iter().filter(|t| t.ends_with('(')).count() == 0 && !fc.evs.is_empty() && fc.evs.len() <= 2 {
+            // the change names evaluators but no particular function: all single-function shapes of those evaluators
+            for e in fc.evs.clone() {
+                let v = vocab(Some(e));
+                let names: Vec<&str> = v.unary.iter().chain(v.binary.iter()).chain(v.aggr.iter()).copied().collect();
+                for f in names {
+                    for t in pair_shapes(f, f, &mut r, true) {
+                        add_expr(&mut pool, &mut r, e, t, "change_focus", 5);
+                    }
+                }
+            }
+        }
         let fnames: Vec<&str> = fc.tokens.iter().filter(|t| t.ends_with('(')).map(|t| t.as_str()).collect();
         if !fnames.is_empty() && fnames.len() <= 8 {
             let evs: Vec<Ev> = if fc.evs.is_empty() { ALL_EV.to_vec() } else { fc.evs.clone() };
